@@ -547,6 +547,124 @@ pub fn deep_tree_history(ps: u64, index: usize) -> Option<History> {
     Some(History { pagesize: ps, num_pages: 8, strict: false, populate: false, txs, origin: format!("deep tree: {} keys of {} B, deletion plan {}", n, klen + 7, index % 6) })
 }
 
+/// Directed family: exact sizes.  One value is overwritten with every length from 0 to a little over
+/// three pages, one byte at a time, so the leaf that holds it passes through every size - exactly one
+/// page, exactly two, one byte more, one byte less - alone in its leaf, next to three neighbours (the
+/// leaf crosses the split threshold at some length), and inside a nested bucket.
+pub fn exact_fit_history(ps: u64, index: usize) -> Option<History> {
+    if index >= 6 {
+        return None;
+    }
+    let p = ps as usize;
+    let put = |h: H, k: &[u8], tag: u64, len: usize| Op::Put { h, k: K::lit(k), v: V { tag, len }, how: How::Slice, vhow: How::Slice };
+    let mut txs = Vec::new();
+    let (lo, hi, neighbours, nested, keylen): (usize, usize, usize, bool, usize) = match index {
+        0 => (0, 3 * p + 64, 0, false, 3),
+        1 => (0, 2 * p + 64, 3, false, 3),
+        2 => (0, 2 * p + 64, 0, true, 1),
+        3 => (p - 200, 4 * p + 64, 1, false, 0),
+        4 => (0, p + 64, 7, false, 40),
+        _ => (0, 2 * p + 64, 2, true, 17),
+    };
+    let key: Vec<u8> = if keylen == 0 { vec![] } else { vec![b'm'; keylen] };
+    let mut ops = vec![Op::TxCreate { k: K::lit(b"fit"), how: How::Slice }];
+    let mut h = 0;
+    if nested {
+        ops.push(Op::Create { h: 0, k: K::lit(b"inner"), how: How::Slice });
+        ops.push(put(0, b"beside", 5, 30));
+        h = 1;
+    }
+    for j in 0..neighbours {
+        // neighbours sort on both sides of the swept key
+        let nk = if j % 2 == 0 { format!("a{}", j) } else { format!("z{}", j) };
+        ops.push(put(h, nk.as_bytes(), 10 + j as u64, 150 + 20 * j));
+    }
+    txs.push(TxScript { ops, end: End::Commit, reopen: false });
+    for len in lo..=hi {
+        let mut ops = vec![Op::TxGet { k: K::lit(b"fit"), how: How::Slice }];
+        if nested {
+            ops.push(Op::GetB { h: 0, k: K::lit(b"inner"), how: How::Slice });
+        }
+        ops.push(put(h, &key, 1000 + len as u64, len));
+        txs.push(TxScript { ops, end: End::Commit, reopen: len % 509 == 7 });
+    }
+    Some(History { pagesize: ps, num_pages: 16, strict: false, populate: false, txs, origin: format!("exact fit: one value swept over {}..={} B with {} neighbours{}", lo, hi, neighbours, if nested { " in a nested bucket" } else { "" }) })
+}
+
+/// Directed family: the free list shrinks (and grows) by about one entry per commit through the
+/// lengths at which it exactly fills one page and two pages, with reopens on the way.
+pub fn freelist_walk_history(ps: u64, index: usize) -> Option<History> {
+    if index >= 4 {
+        return None;
+    }
+    let p = ps as usize;
+    let per_page = (p - 40) / 8;
+    // free this many pages at once: a little over one (or two) free-list pages
+    let free_pages = if index % 2 == 0 { per_page + 25 } else { 2 * per_page + 25 };
+    let put = |h: H, k: String, tag: u64, len: usize| Op::Put { h, k: K::lit(k.as_bytes()), v: V { tag, len }, how: How::Slice, vhow: How::Slice };
+    let mut txs = Vec::new();
+    let mut ops = vec![Op::TxCreate { k: K::lit(b"bulk"), how: How::Slice }, Op::TxCreate { k: K::lit(b"grow"), how: How::Slice }];
+    for j in 0..free_pages {
+        // one overflow-free page per value: a value of most of a page
+        ops.push(put(0, format!("b{:05}", j), 100 + j as u64, p - 150));
+    }
+    txs.push(TxScript { ops, end: End::Commit, reopen: false });
+    txs.push(TxScript { ops: vec![Op::TxDelete { k: K::lit(b"bulk"), how: How::Slice }], end: End::Commit, reopen: index >= 2 });
+    // consume the free pages one or two per commit
+    for i in 0..(free_pages + 30) {
+        let mut ops = vec![Op::TxGet { k: K::lit(b"grow"), how: How::Slice }];
+        ops.push(put(0, format!("g{:05}", i), 5000 + i as u64, p - 150));
+        if index % 2 == 1 && i % 3 == 0 {
+            ops.push(put(0, format!("h{:05}", i), 9000 + i as u64, p - 150));
+        }
+        // (variants 2 and 3 close and reopen the file after EVERY commit: each free-list length is also read back)
+        txs.push(TxScript { ops, end: End::Commit, reopen: index >= 2 || i % 41 == 40 });
+    }
+    // and give them back a few at a time
+    for i in 0..40 {
+        let mut ops = vec![Op::TxGet { k: K::lit(b"grow"), how: How::Slice }];
+        for j in 0..(1 + i % 4) {
+            ops.push(Op::Delete { h: 0, k: K::lit(format!("g{:05}", i * 4 + j).as_bytes()) });
+        }
+        txs.push(TxScript { ops, end: End::Commit, reopen: index >= 2 });
+    }
+    Some(History { pagesize: ps, num_pages: 8, strict: false, populate: false, txs, origin: format!("free-list walk: {} pages freed at once, then consumed one commit at a time (a free-list page holds {})", free_pages, per_page) })
+}
+
+/// Directed family: a "directory" bucket whose entries are all nested buckets with names of a fifth
+/// of a page (four levels with a few dozen of them).  One transaction deletes bucket `d` and writes
+/// into bucket `w`: the deletion makes branch pages merge while the written bucket's entry has to be
+/// found again (and rewritten) in the restructured tree.
+pub fn bucket_dir_history(ps: u64, n: usize, d: usize, w: usize, extra_deletes: usize) -> History {
+    let name = |j: usize| K { pre: format!("n{:03}", j).into_bytes(), fill: ps as usize / 5 - 8, post: vec![] };
+    let put = |h: H, k: &[u8], tag: u64, len: usize| Op::Put { h, k: K::lit(k), v: V { tag, len }, how: How::Slice, vhow: How::Slice };
+    let mut ops = vec![Op::TxCreate { k: K::lit(b"top"), how: How::Slice }];
+    for j in 0..n {
+        ops.push(Op::Create { h: 0, k: name(j), how: How::Slice });
+        ops.push(put(j + 1, b"k", j as u64 + 1, 10));
+    }
+    let tx0 = TxScript { ops, end: End::Commit, reopen: (d + w) % 3 == 0 };
+    let mut ops = vec![Op::TxGet { k: K::lit(b"top"), how: How::Slice }];
+    let mut nh = 1;
+    if w != d {
+        ops.push(Op::GetB { h: 0, k: name(w), how: if (d + w) % 2 == 0 { How::Slice } else { How::Listed } });
+        ops.push(put(nh, b"written", 7000 + w as u64, 25));
+        nh += 1;
+    }
+    for x in 0..=extra_deletes {
+        let t = d + x;
+        if t < n && t != w {
+            ops.push(Op::DeleteB { h: 0, k: name(t), how: How::Slice });
+        }
+    }
+    ops.push(Op::Buckets { h: 0 });
+    ops.push(Op::NextInt { h: 0 });
+    let _ = nh;
+    let tx1 = TxScript { ops, end: End::Commit, reopen: false };
+    let tx2 = TxScript { ops: vec![Op::TxGet { k: K::lit(b"top"), how: How::Slice }, Op::Buckets { h: 0 }, Op::Create { h: 0, k: K::lit(b"zz-new"), how: How::Slice }], end: End::Commit, reopen: true };
+    History { pagesize: ps, num_pages: 8, strict: false, populate: false, txs: vec![tx0, tx1, tx2], origin: format!("bucket directory: {} nested buckets, delete #{} (+{}), write into #{}", n, d, extra_deletes, w) }
+}
+
 // ---------------------------------------------------------------------------
 // Directed family: several bucket deletions at different nesting levels in one
 // transaction (child then ancestor, ancestor of a bucket modified or created in
